@@ -9,6 +9,9 @@
                               answer for e in the world after m arrivals;
      - files only:            X = the file events.
    The chain delivers `delivered c X` (no stop reached), or `fst (upto_stop c X)` and ends with stop-block-reached.
+   Final blocks only: the filter is stateful (fix "each final block once", Model/Joining.chain_fin): it drops a passing
+   event numbered at or below the last one it forwarded; the chain then runs over `undup c None X`, X without the
+   events the filter's memory drops (`seen c X`).
    This is C13's "filters only remove ... in unchanged order" and "stop block" clauses over whole runs for EVERY
    filter, stop block, mode, world and schedule (no hypothesis), and the basis of the C07 theorems for non-default
    filters and stop blocks (Spec/C07_More_Spec.v): the discipline is a property of X. *)
@@ -34,6 +37,21 @@ Definition run_files (c : jcfg) (start merged_end : N) (merged forked : list blo
    | RsNotImplemented => JOther
    | RsFuel => JFuel
    end).
+
+(* final blocks only: what the stateful filter (Model/Joining.chain_fin) lets reach the rest of the chain; lf = the
+   number of the last event it forwarded *)
+Fixpoint undup (c : jcfg) (lf : option N) (l : list event) : list event :=
+  match l with
+  | [] => []
+  | e :: l' =>
+      if filter_pass c (estep e) then
+        if match lf with Some n => bnum (eblk e) <=? n | None => false end then undup c lf l'
+        else e :: undup c (Some (bnum (eblk e))) l'
+      else undup c lf l'
+  end.
+
+(* the part of a raw sequence the handler chain of c works on *)
+Definition seen (c : jcfg) (X : list event) : list event := if j_filter c =? 1 then undup c None X else X.
 
 (* the argument checks of Stream.Run *)
 Definition run_rejected (c : jcfg) (w : world) : bool :=
@@ -65,15 +83,15 @@ Definition C07_run_shapes : Prop :=
     (run_rejected c w = false /\
      ((* live from the start *)
       (exists burst k, live_try c (w_hub w) start = BOk burst /\
-         raw_out c (burst ++ pushed c k w) res (w_rest (world_after c k w) = [])) \/
+         raw_out c (seen c (burst ++ pushed c k w)) res (w_rest (world_after c k w) = [])) \/
       (* the hub's lookup gave up (model artefact: fuel of the burst functions) *)
       ((live_try c (w_hub w) start = BFuel \/ live_try c (w_hub w) start = BPanic) /\ res = ([], JFuel)) \/
       (live_try c (w_hub w) start = BErr /\
        ((* files, then the join on the file event e in the world after m arrivals *)
         (exists pre e rest m lowest burst k,
-           fevs = pre ++ e :: rest /\ snd (upto_stop c pre) = false /\
+           fevs = pre ++ e :: rest /\ snd (upto_stop c (seen c pre)) = false /\
            join_try c (world_after c m w) lowest e = Some burst /\
-           raw_out c (pre ++ burst ++ pushed c k (world_after c m w)) res
+           raw_out c (seen c (pre ++ burst ++ pushed c k (world_after c m w))) res
                    (w_rest (world_after c k (world_after c m w)) = [])) \/
         (* files only *)
-        files_out c fevs fend res)))).
+        files_out c (seen c fevs) fend res)))).
